@@ -500,3 +500,28 @@ def rule_delete_tables_after_manifest(cx):
     rm = sites(cx, cb, "std::fs::remove_file")
     o = origin_of_operand(cb, rm[0].args[0], through_calls="all")
     cx.check(o.from_call("Options::sstable_file_path") and "tables_to_merge" in o.field_names(), "cleanup_old_tables removes exactly the merged inputs' files", "cleanup-old-tables-target", rm[0].where())
+
+
+def rule_every_record_crc_checked(cx):
+    """every physical record the reader acts on (data fragments AND metadata records) has its checksum
+    compared first; only zero padding is exempt (its bytes are checked to be zero instead)"""
+    f = cx.f
+    b = f.body("wal::reader::Reader::next")
+    crc = sites(cx, b, "wal::calculate_crc32")
+    # effects of a record: payload appended to the output, reader state changed (compression type)
+    effects = []
+    for c in b.calls:
+        if c.bb in b.live and c.primary.endswith("extend_from_slice") and "rec" in origin_of_operand(b, c.args[0]).field_names():
+            effects.append((c.bb, "payload appended", c.where()))
+    for i, j, lhs, rv, line in b.assigns():
+        fs = [p for p in lhs[1:] if isinstance(p, list) and p[0] == "f"]
+        if fs and fs[-1][2] in ("compression_type", "compression_type_record_read") and fs[-1][3].endswith("Reader"):
+            effects.append((i, "reader.%s changed" % fs[-1][2], "%s:%d" % (b.file, line)))
+    cx.floor("record effects in Reader::next", len(effects), 2)
+    for bb_, what, where in effects:
+        # since the last header parse, a CRC comparison must lie on every path to the effect
+        ph = sites(cx, b, "wal::reader::Reader::parse_header")
+        r = b.reachable_after([ph[0].bb], avoid={c.bb for c in crc})
+        cx.check(bb_ not in r, "%s only after the record's checksum was computed and compared" % what, "record-effect-without-crc|%s" % what.replace(" ", "_"), where,
+                 "Reader::next acts on a record (%s) without verifying its checksum: a damaged type byte turns a data record into a metadata record that is silently "
+                 "consumed, so a committed transaction disappears (and later records are mis-decoded) without any corruption report" % what)
